@@ -29,8 +29,13 @@ using MapUPtr = MapSysT<CollKey, UPtrVal, true>;
 }  // namespace
 
 VF_SECTION(set_str_bfs, 1, 1, 180) {
-  Checker<SetStr> c(r, set_alphabet(S02, true, true));
-  c.bfs_section("LRUSet<std::string>, heap instances X (derived class) and Y with swap, 3 keys (small-buffer / heap), sizes {0,2}, aliased key arguments", 3);
+  if (r.thorough()) {
+    Checker<SetStr> c(r, set_alphabet({0, 1, 2}, true, true));
+    c.bfs_section("LRUSet<std::string>, heap instances X (derived class) and Y with swap, 3 keys (small-buffer / heap), sizes {0,1,2}, aliased key arguments", 8);
+  } else {
+    Checker<SetStr> c(r, set_alphabet(S02, true, true));
+    c.bfs_section("LRUSet<std::string>, heap instances X (derived class) and Y with swap, 3 keys (small-buffer / heap), sizes {0,2}, aliased key arguments", 3);
+  }
 }
 
 VF_SECTION(set_coll_bfs, 1, 1, 180) {
